@@ -33,6 +33,9 @@ def configs(tier):
             if q and ((n == 0 and units != ("deg", "deg")) or (n == 1 and units == ("deg", "deg"))):
                 continue
             out.append(("sphdist", n, units))
+    if q:
+        out.append(("sphdist", 1, ("deg", "rad")))
+        out.append(("sphdist", 0, ("rad", "deg")))
     out.append(("gcirc_same", 1, ("deg", "rad")))
     out.append(("gcirc_shared", 1, ("deg", "rad")))
     out.append(("sphdist_same", 1, ("deg", "deg")))
